@@ -2,6 +2,7 @@
 """C15 Reactions -- role order, order-free identity, condensed-graph side provenance, signature tables."""
 from ..r_reaction import rule_roles, rule_sides, rule_dynamic_tables
 from ..r_readers import rule_negative_count_slices
+from ..r_reaction import rule_role_zip as _rule_role_zip
 
 LEVEL = 'other'
 
@@ -13,3 +14,4 @@ def run(ck, repo):
     rule_sides(ck, repo, 'C15.D2-sides')
     rule_dynamic_tables(ck, repo, 'C15.D3-signature-tables')
     rule_negative_count_slices(ck, repo, 'C15.D4-role-slices', ['chython.files.daylight.smiles:smiles'])
+    _rule_role_zip(ck, repo, 'C15.D1-role-pairing', lambda f: f.module.name == 'chython.files.daylight.smiles', floor=1)
